@@ -367,3 +367,63 @@ Proof.
   split; [constructor; [apply small_wfe_11; lia|constructor]|]. split; [discriminate|].
   split; [cbn; lia|]. split; [vm_compute; reflexivity|]. split; [lia|cbn; lia].
 Qed.
+
+(* ---- rejected decryption shares ------------------------------------------------------------------------------ *)
+Lemma rejected_update_unchanged (G : group) (d dj : Z) : dec_update G d (dj, false) = (false, d).
+Proof. reflexivity. Qed.
+
+Lemma accepted_update (G : group) (d dj : Z) : dec_update G d (dj, true) = (true, (d * dj) mod gp G).
+Proof. reflexivity. Qed.
+
+(* only the accepted attempts count, in their order *)
+Lemma dec_attempts_filter (G : group) (atts : list (Z * bool)) : forall d,
+  dec_attempts G d atts = dec_accumulate G d (map fst (filter snd atts)).
+Proof.
+  unfold dec_attempts, dec_accumulate. induction atts as [|[dj ok] tl IH]; intros d; [reflexivity|].
+  cbn [fold_left filter snd]. destruct ok; cbn [dec_update snd fst map fold_left]; apply IH.
+Qed.
+
+Lemma offer_map (G : group) (c1 : Z) (atts : list attempt) :
+  match map_res (offer G c1) atts, map_res (dec_share G c1) (goods atts) with
+  | inl l, inl ds => forall d, dec_attempts G d l = dec_accumulate G d ds
+  | inr e, inr e' => e = e'
+  | _, _ => False
+  end.
+Proof.
+  induction atts as [|a tl IH]; [intros d; reflexivity|].
+  destruct a as [x|dj]; cbn [map_res offer goods flat_map app].
+  - fold (goods tl). destruct (dec_share G c1 x) as [s|e]; cbn [rbind]; [|reflexivity].
+    destruct (map_res (offer G c1) tl) as [l|e], (map_res (dec_share G c1) (goods tl)) as [ds|e']; cbn [rbind]; try assumption.
+    intros d. unfold dec_attempts, dec_accumulate. cbn [fold_left dec_update snd fst]. apply IH.
+  - fold (goods tl). cbn [rbind].
+    destruct (map_res (offer G c1) tl) as [l|e], (map_res (dec_share G c1) (goods tl)) as [ds|e']; cbn [rbind]; assumption.
+Qed.
+
+Theorem open_run_att_eq (G : group) (w : nat) (x_own : Z) (others : list Z) (atts : list attempt) (T : Z)
+    (chain : list (Z * bool)) :
+  open_run_att G w x_own others atts T chain = open_run G w x_own others (goods atts) T chain.
+Proof.
+  unfold open_run_att, open_run.
+  repeat match goal with
+         | |- rbind ?x _ = rbind ?x _ => destruct x; cbn [rbind]; [|reflexivity]
+         end.
+  match goal with |- context [map_res (offer G ?c1) atts] => pose proof (offer_map G c1 atts) as H;
+    destruct (map_res (offer G c1) atts) as [lo|eo], (map_res (dec_share G c1) (goods atts)) as [dso|eo'] end;
+    cbn [rbind]; try contradiction; [now rewrite H|now subst].
+Qed.
+
+(* any interleaving of rejected and accepted update attempts: as soon as the accepted ones are the correct shares of
+   all other players, the card opens to T *)
+Corollary open_after_rejected_shares (G : group) (w : nat) (x_own : Z) (others : list Z) (atts : list attempt) (T : Z)
+    (chain : list (Z * bool)) :
+  wf_group G -> 2 ^ Z.of_nat w <= gq G -> Z.of_nat w <= TMCG_MAX_FPOWM_T ->
+  wfe G x_own -> Forall (wfe G) others -> Permutation others (goods atts) ->
+  0 <= T < 2 ^ Z.of_nat w -> Forall (fun rb => wfe G (fst rb)) chain ->
+  open_run_att G w x_own others atts T chain = inl T.
+Proof.
+  intros WF Hw Hw2 Hx Ho Perm HT Hc. rewrite open_run_att_eq.
+  rewrite (open_run_spec G w x_own others (goods atts) [] T chain) by (try assumption; now rewrite app_nil_r).
+  cbn [zsum fold_right]. rewrite Z.mul_0_r, Z.add_0_r. unfold expected_type.
+  pose proof (prime_ge_2 _ (proj1 (proj2 (proj2 WF)))).
+  rewrite Z.mod_small by lia. destruct (Z.ltb_spec T (2 ^ Z.of_nat w)); [reflexivity|lia].
+Qed.
